@@ -135,10 +135,12 @@ func ordOp(op dag.Op, st ordState) ordState {
 		}
 		return st
 	case *dag.Fuse, *dag.Shape:
-		if st.Kind == ordSorted {
-			return ordState{Kind: ordBag}
+		// the field order of the fused type follows the order in which fields are first seen:
+		// on an input without a defined order only the number of values is defined
+		if st.Kind == ordSeq || st.Kind == ordNondet {
+			return st
 		}
-		return st
+		return ordState{Kind: ordNondetLen}
 	case *dag.Head, *dag.Tail:
 		if st.Kind == ordSeq {
 			return st
